@@ -822,10 +822,18 @@ pub fn compare_tree_opts<const K: usize>(
             (Some(g), Some(e)) => {
                 if mode.tol == 0.0 {
                     // exact, or (when the reference value is not representable / the evaluation of
-                    // A x + b itself has to round because magnitudes are mixed) within 1e-12 relative
+                    // M x + c itself has to round because magnitudes are mixed) within 1e-12 relative to the
+                    // size of the terms that are summed: with data far from the origin the terms of one row can be
+                    // 1e17 and cancel to 1e10, and f64 then rounds by more than 1e-12 of the *result*
+                    let mags: Vec<f64> = match x.eval_leaf(p).0 {
+                        Some(leaf) if leaf.outdim() == e.len() => (0..e.len())
+                            .map(|i| leaf.mat[i].iter().zip(p.iter()).fold(leaf.bias[i].abs().to_f64(), |acc, (m, xj)| acc + (m * xj).abs().to_f64()))
+                            .collect(),
+                        _ => e.iter().map(|b| b.to_f64().abs()).collect(),
+                    };
                     g.len() == e.len()
-                        && g.iter().zip(e).all(|(a, b)| {
-                            a.is_finite() && (&Q::from_f64(*a) == b || (a - b.to_f64()).abs() <= 1e-12 * (1.0 + b.to_f64().abs()))
+                        && g.iter().zip(e).zip(&mags).all(|((a, b), mag)| {
+                            a.is_finite() && (&Q::from_f64(*a) == b || (a - b.to_f64()).abs() <= 1e-12 * (1.0 + b.to_f64().abs().max(*mag)))
                         })
                 } else {
                     g.len() == e.len() && g.iter().zip(e).all(|(a, b)| (a - b.to_f64()).abs() <= mode.tol * (1.0 + b.to_f64().abs()))
